@@ -1,6 +1,10 @@
 """User-defined behavioural blocks (as a py4hw user would write them) used by the generation properties.
 Imported only after the repository path has been set up (py4hw is imported at module level so that
-inspect.getsource, which the transpiler relies on, finds ordinary top-level classes in a real file)."""
+inspect.getsource, which the transpiler relies on, finds ordinary top-level classes in a real file).
+
+The three classes deliberately share names across roles: Acc has a LOCAL called m and Peak a PORT called m, Peak has locals
+q and s while Acc has a port q and a state attribute s.  Whatever a generator or the transpiler remembers about one class
+must not colour the text of the other."""
 import py4hw
 
 
@@ -15,5 +19,36 @@ class Acc(py4hw.Logic):
         self.n = 1
 
     def clock(self):
-        self.s = (self.s + self.a.get() + self.n) & 15
+        m = self.a.get() + self.n
+        self.s = (self.s + m) & 15
         self.q.prepare(self.s)
+
+
+class Peak(py4hw.Logic):
+    """running maximum of the low bits of its input"""
+
+    def __init__(self, parent, name, a, m):
+        super().__init__(parent, name)
+        self.a = self.addIn('a', a)
+        self.m = self.addOut('m', m)
+        self.best = 0
+
+    def clock(self):
+        q = self.a.get() & 7
+        s = q + 1
+        if s > self.best:
+            self.best = s
+        self.m.prepare(self.best)
+
+
+class ParamShifter(py4hw.Logic):
+    """r = a << n, n being a Verilog parameter of the module (it may be a reference to a parameter of the parent)"""
+
+    def __init__(self, parent, name, a, r, n):
+        super().__init__(parent, name)
+        self.a = self.addIn('a', a)
+        self.r = self.addOut('r', r)
+        self.addParameter('n', n)
+
+    def propagate(self):
+        self.r.put(self.a.get() << self.getParameterValue('n'))
